@@ -31,6 +31,7 @@ RULE = (
     'equal to the product, on the side with fewer elements (either end when equal), and no identity among >= 2 '
     'operands. non-trivial = >= 2 rewrites, or one rewrite at position >= 1 with a non-empty left context.'
     ' Also (P_other): a selection next to the transpose of ANOTHER selection with the same structures stands in the chain, to the left of a genuine P @ P.T: it must stay and must not prevent the genuine pattern from being rewritten.'
+    ' Also: Stokes chains whose components have different precision; half-precision chains ending (output side) in a wider-typed operator with fewer elements (the scalar goes to the side with fewer ELEMENTS).'
 )
 ASSUMPTIONS = [
     'pattern operators are non-degenerate (no no-op reshape / indexing, no zero rotation), inert operators are rule-free',
